@@ -360,6 +360,8 @@ impl Transformation for Complement {
     unsafe fn word_unchecked(parent: &BitVector, index: usize) -> u64 {
         let (last_index, offset) = bits::split_offset(parent.len());
         if index >= last_index {
+            #[cfg(feature = "verif-probes")]
+            crate::verif::hit(crate::verif::probe::COMPLEMENT_LAST_WORD);
             (!parent.data.word_unchecked(index)) & bits::low_set_unchecked(offset)
         } else {
             !parent.data.word_unchecked(index)
@@ -453,6 +455,8 @@ impl<'a, T: Transformation + ?Sized> Iterator for OneIter<'a, T> {
             let mut word = unsafe { T::word_unchecked(self.parent, index) & !bits::low_set_unchecked(offset) };
             while word == 0 {
                 index += 1;
+                #[cfg(feature = "verif-probes")]
+                crate::verif::hit(crate::verif::probe::ONE_ITER_NEXT_SKIP);
                 word = unsafe { T::word_unchecked(self.parent, index) };
             }
             let offset = word.trailing_zeros() as usize;
@@ -473,6 +477,8 @@ impl<'a, T: Transformation + ?Sized> Iterator for OneIter<'a, T> {
         let mut ones = word.count_ones() as usize;
         while ones <= relative_rank {
             index += 1;
+            #[cfg(feature = "verif-probes")]
+            crate::verif::hit(crate::verif::probe::ONE_ITER_NTH_SKIP);
             word = unsafe { T::word_unchecked(self.parent, index) };
             relative_rank -= ones;
             ones = word.count_ones() as usize;
@@ -502,6 +508,8 @@ impl<'a, T: Transformation + ?Sized> DoubleEndedIterator for OneIter<'a, T> {
             let mut word = unsafe { T::word_unchecked(self.parent, index) & bits::low_set_unchecked(offset + 1) };
             while word == 0 {
                 index -= 1;
+                #[cfg(feature = "verif-probes")]
+                crate::verif::hit(crate::verif::probe::ONE_ITER_BACK_SKIP);
                 word = unsafe { T::word_unchecked(self.parent, index) };
             }
             let offset = bits::WORD_BITS - 1 - (word.leading_zeros() as usize);
